@@ -288,6 +288,9 @@ class Converter:
         graph = self._current_fn
         self._current_fn = self._outer.pop()
         self._locals.pop()
+        # Domains used only inside the block must be imported by the enclosing function too.
+        for domain, version in graph.opset_imports.items():
+            self._current_fn.opset_imports.setdefault(domain, version)
         return graph
 
     def _current_scope(self) -> dict[str, LocalSymValue]:
